@@ -42,6 +42,8 @@ func init() {
 			Run: func(P *Program, R *Report) {
 				notDecodableRule(P, R, "C12.j", [][2]string{{"rangeproof.Proof", "MResponse"}})
 			}},
+		Rule{ID: "C12.k", Explain: "aliasing discipline: range proofs, structures and statements are not modified in place - no function mutates in place a big.Int it reached through rangeproof.Proof / rangeproof.ProofStructure / rangeproof.Statement (math/big mutators write their receiver), except the tabled merge/refresh functions.",
+			Run: func(P *Program, R *Report) { inPlaceDisciplineRule(P, R, "C12.k", "rangeproof.Proof", "rangeproof.ProofStructure", "rangeproof.Statement") }},
 		Rule{ID: "C12.c", Explain: "ExtractStructure rejects K == nil, Ld > Lm, len(Cs) outside {3,4}, K.BitLen() > Lm + IntSize, three squares with A != 4, sign outside {1,-1} and more than 4 squares.",
 			Run: func(P *Program, R *Report) { extractLimitsRule(P, R) }},
 		Rule{ID: "C12.d", Explain: "VerifyProofStructure size limits: V5 <= Lm+ld+2+Lh+Lstatzk+1 bits, M and V_i <= Lm+Lh+Lstatzk+1, D_i <= ld+Lh+Lstatzk+1, C_i <= |N| bits (symbolic comparison).",
